@@ -2160,4 +2160,99 @@ theorem fragStmt_select (env : Env) (s : Stmt) (hs : fragStmt env s = true) :
   | unsupported _ => simp [fragStmt] at hs
 
 
+/-! ### a plain SELECT moves no column -/
+
+def noSubItems (its : List Item) : Bool := its.all (fun it => match it with | .mk e _ _ => noSub e)
+
+theorem noSubI_of_noSubItems : ∀ its : List Item, noSubItems its = true → noSubI its = true
+  | [], _ => rfl
+  | .mk e a k :: r, h => by
+    simp only [noSubItems, List.all_cons, Bool.and_eq_true] at h
+    simp only [noSubI, Bool.and_eq_true]
+    exact ⟨h.1, noSubI_of_noSubItems r h.2⟩
+
+/-- a SELECT statement over base tables without subqueries -/
+def fragPlainSelect : Stmt → Bool
+  | .query (.select _ its frm wh _ _) _ => noSubItems its && frm.all feOK && noSubOpt wh
+  | _ => false
+
+theorem disp_select : dispatch "select_statement" = some "SelectExtractor" := by decide
+theorem disp_bracketed : dispatch "bracketed" = some "SelectExtractor" := by decide
+
+/-- the holder of a plain SELECT is the reads of its FROM clause — no column node, no LINEAGE edge -/
+theorem exQuery_plain (env : Env) (d : Bool) (its : List Item) (frm : List FromExpr) (wh : Option Expr)
+    (grp : List Expr) (hav : Option Expr) (hi : noSubItems its = true) (hf : frm.all feOK = true) (hw : noSubOpt wh = true) :
+    exQuery env {} (.select d its frm wh grp hav) = .ok ((fromTabs env frm).foldl addReadO Graph.empty) := by
+  rw [exQuery_tab env _ d its frm wh grp hav (noSubI_of_noSubItems its hi) hf hw]
+  have hinit : initHolder ({} : Ctx) = Graph.empty := rfl
+  have hcte : cteObjs (Graph.empty : LGraph) = [] := by
+    apply cteObjs_nil
+    intro d'; rw [tag_empty]; simp
+  rw [hinit, finishBranches_single, tablesOfFrom_tab env _ hcte frm hf]
+  have hws : writeSet ((fromTabs env frm).foldl addReadO Graph.empty) = [] := by
+    unfold writeSet
+    apply tagSet_nil_of
+    intro d'
+    rw [tag_foldl_addReadO, tag_empty]
+    simp
+  have hclean : endOfQueryCleanup env.importDefault Graph.empty (fromTabs env frm) (its.map (colSpecOf env)) [] env.revStar =
+      .ok ((fromTabs env frm).foldl addReadO Graph.empty) := by
+    unfold endOfQueryCleanup
+    simp only [List.nil_append, endOfQueryCleanup.go, slice_full]
+    unfold cleanupGroup
+    rw [hws]
+  rw [hclean]
+  simp only
+  have : expandWildcard env.prov ((fromTabs env frm).foldl addReadO Graph.empty) =
+      (fromTabs env frm).foldl addReadO Graph.empty := by
+    unfold expandWildcard targetTable?
+    rw [hws]
+    rfl
+  rw [this]
+
+theorem analyze_plain (env : Env) (silent : Bool) (s : Stmt) (hs : fragPlainSelect s = true) :
+    ∃ d its frm wh grp hav br, s = .query (.select d its frm wh grp hav) br ∧
+      analyze env silent s = .ok ((fromTabs env frm).foldl addReadO Graph.empty) := by
+  cases s with
+  | query q br =>
+    cases q with
+    | setop _ _ => simp [fragPlainSelect] at hs
+    | withq _ _ => simp [fragPlainSelect] at hs
+    | select d its frm wh grp hav =>
+      simp only [fragPlainSelect, Bool.and_eq_true] at hs
+      refine ⟨d, its, frm, wh, grp, hav, br, rfl, ?_⟩
+      unfold analyze
+      have hd : ∃ c, dispatch (stmtType (.query (.select d its frm wh grp hav) br)) = some c := by
+        cases br
+        · exact ⟨_, disp_select⟩
+        · exact ⟨_, disp_bracketed⟩
+      obtain ⟨c, hc⟩ := hd
+      rw [hc]
+      exact exQuery_plain env d its frm wh grp hav hs.1.1 hs.1.2 hs.2
+  | insert _ _ _ _ _ _ => simp [fragPlainSelect] at hs
+  | insertValues _ _ _ => simp [fragPlainSelect] at hs
+  | ctas _ _ _ _ _ => simp [fragPlainSelect] at hs
+  | createView _ _ _ _ => simp [fragPlainSelect] at hs
+  | createTable _ _ _ => simp [fragPlainSelect] at hs
+  | createTableLike _ _ => simp [fragPlainSelect] at hs
+  | update _ _ _ _ _ => simp [fragPlainSelect] at hs
+  | merge _ _ _ _ _ _ => simp [fragPlainSelect] at hs
+  | copy _ _ => simp [fragPlainSelect] at hs
+  | drop _ _ _ => simp [fragPlainSelect] at hs
+  | alterRename _ _ => simp [fragPlainSelect] at hs
+  | renameTable _ => simp [fragPlainSelect] at hs
+  | noop _ _ => simp [fragPlainSelect] at hs
+  | unsupported _ => simp [fragPlainSelect] at hs
+
+/-- the edges of the reads of a FROM clause: the alias edges, all HAS_ALIAS -/
+theorem reads_edges (tabs : List DObj) (hl : ∀ o ∈ tabs, isTabRef o = true) (u v : Node) :
+    ((u, v) ∈ (tabs.foldl addReadO (Graph.empty : LGraph)).edges ↔ aliasPair tabs u v) ∧
+    ((u, v) ∈ (tabs.foldl addReadO (Graph.empty : LGraph)).edges →
+      (tabs.foldl addReadO (Graph.empty : LGraph)).ety u v = some .hasAlias) := by
+  have hE := mem_edges_foldl_addReadO tabs hl (Graph.empty : LGraph) u v
+  have hY := ety_foldl_addReadO tabs hl (Graph.empty : LGraph) u v
+  simp only [empty_edges, List.not_mem_nil, false_or] at hE
+  exact ⟨hE, fun he => hY.1 (hE.mp he)⟩
+
+
 end SqlLineage.ColumnsExact
